@@ -105,6 +105,55 @@ def random_step(rng, profile, allow_repack=True):
     return step
 
 
+def aba_histories(rng):
+    """Systematic short histories  setup ; A ; B ; A ; views  : a call, something that changes what the call relied on
+    (a deletion, a repack, a clean, a new handle, a lock left behind ...), the same call again.  Per-handle caches and
+    'seen this before' shortcuts show up here; random histories of a dozen steps rarely contain the right triple."""
+    key = 'k2'
+    setups = {
+        'empty': [],
+        'loose': [{'name': 'add', 'keys': [key], 'via': 'bytes'}],
+        'packed': [{'name': 'addpack', 'keys': [key, 'k3'], 'z': False, 'noholes': False, 'twice': False, 'via': 'bytes'}],
+        'packedz-cleaned': [{'name': 'add', 'keys': [key], 'via': 'bytes'},
+                            {'name': 'pack', 'mode': 'YES', 'perpack': False, 'validate': True}, {'name': 'clean', 'vacuum': False}],
+    }
+    calls = {
+        'add': {'name': 'add', 'keys': [key], 'via': 'stream'},
+        'addpack': {'name': 'addpack', 'keys': [key], 'z': False, 'noholes': False, 'twice': False, 'via': 'bytes'},
+        'addpack-nh1': {'name': 'addpack', 'keys': [key, 'k4'], 'z': True, 'noholes': True, 'twice': False, 'via': 'streams'},
+        'addpack-nh2': {'name': 'addpack', 'keys': [key], 'z': False, 'noholes': True, 'twice': True, 'via': 'bytes'},
+        'import-same': {'name': 'import', 'keys': [key, 'k3'], 'z': False, 'budget': 10 ** 8, 'iterable': 'list', 'callback': False,
+                        'src': 0},
+        'import-same-small': {'name': 'import', 'keys': [key, 'k5', 'k1'], 'z': True, 'budget': 30, 'iterable': 'tuple',
+                              'callback': True, 'src': 0},
+        'import-other': {'name': 'import', 'keys': [key, 'k5'], 'z': False, 'budget': 10 ** 8, 'iterable': 'list', 'callback': False,
+                         'src': 1},
+        'pack': {'name': 'pack', 'mode': 'AUTO', 'perpack': True, 'validate': False},
+        'loosen': {'name': 'loosen', 'keys': [key]},
+        'get': {'name': 'get', 'keys': [key, 'k7']},
+        'listpart': {'name': 'listpart'},
+    }
+    disturbances = {
+        'delete': [{'name': 'delete', 'keys': [key]}],
+        'delete-repack': [{'name': 'delete', 'keys': [key]}, {'name': 'repack', 'mode': 'KEEP'}],
+        'repack': [{'name': 'repack', 'mode': 'YES'}],
+        'clean': [{'name': 'clean', 'vacuum': True}],
+        'reopen': [{'name': 'reopen'}],
+        'pack-clean': [{'name': 'pack', 'mode': 'NO', 'perpack': False, 'validate': True}, {'name': 'clean', 'vacuum': False}],
+        'stalelock': [{'name': 'stalelock'}],
+        'add-loose': [{'name': 'add', 'keys': [key], 'via': 'bytes'}],
+    }
+    out = []
+    for sname, setup in setups.items():
+        for cname, call in calls.items():
+            for dname, disturbance in disturbances.items():
+                steps = [dict(x) for x in setup] + [dict(call)] + [dict(x) for x in disturbance] + [dict(call)]
+                steps.append({'name': 'has', 'keys': [key, 'k3', 'k7']})
+                cfg = {'hash': 'sha256', 'prefix': 2, 'zlevel': 1, 'target': rng.choice([120, 10 ** 9])}
+                out.append((cfg, steps, f'{sname};{cname};{dname};{cname}'))
+    return out
+
+
 def random_history(rng, profile, length):
     steps = []
     norepack = profile == 'C13' or rng.random() < 0.35
@@ -632,6 +681,14 @@ def run_histories(report: common.Report, profile: str, count: int, length: int, 
         jobs.append((tid, random_config(rng, profile), steps))
     for extra in extra_histories:
         jobs.append((len(jobs) + 1, extra[0], extra[1]))
+    n_aba = 0
+    if handles == ('h1',):
+        aba = aba_histories(rng)
+        if common.tier() != 'thorough':
+            aba = rng.sample(aba, len(aba) // 2)      # half of the family per quick run, all of it in the thorough tier
+        for cfg, steps, _label in aba:
+            jobs.append((len(jobs) + 1, cfg, steps))
+            n_aba += 1
     # spec -> code: behaviours of the design model generated by TLC, replayed on the real library
     n_sim = 0
     if sim:
@@ -694,6 +751,7 @@ def run_histories(report: common.Report, profile: str, count: int, length: int, 
     report.set('monitor', res.summary())
     report.set('invariants_checked', invariants)
     report.set('histories_from_tlc_simulation', n_sim)
+    report.set('systematic_aba_histories', n_aba)
     if conform:
         conformance(report, traces, handles=handles, list_pinned=LIST_PINNED)
     report.sample({'cfg': traces[0]['cfg'], 'steps': traces[0]['steps']})
